@@ -644,6 +644,9 @@ func (c *c41run) corpus() {
 	c.roundTrip(cadence.NewEvent([]cadence.Value{cadence.NewOptional(cadence.String("x"))}).WithType(
 		cadence.NewEventType(loc, "Ev", []cadence.Field{{Identifier: "msg", Type: cadence.NewOptionalType(cadence.StringType)}}, nil)), "corpus:event", "", true)
 
+	// distinct types with the same qualified identifier at different locations in one value
+	sameNameValues(func(v cadence.Value, origin string) { c.roundTrip(v, origin, "", false) })
+
 	// --- known input classes (findings): exercised on every run
 	// F1: the deprecated "Restriction" kind panics with a string (not an error): the panic escapes Decode
 	doc := []byte(`{"type":"Type","value":{"staticType":{"kind":"Restriction","typeID":"","type":"","restrictions":[]}}}`)
